@@ -228,7 +228,7 @@ func (w *world) item(o *Op) stackitem.Item {
 	hd := []stackitem.Item{bi(int64(o.Kind)), bi(int64(o.ID))}
 	switch o.Kind {
 	case opCheck:
-		hd = append(hd, stackitem.NewByteArray(w.hashes[o.Acct].BytesBE()))
+		hd = append(hd, stackitem.NewByteArray(w.hashOf(o.Acct).BytesBE()))
 	case opCall, opCallTry:
 		fl := int64(callflag.All)
 		if !o.RS {
